@@ -427,7 +427,13 @@ func vpH_C02_empty_items() {
 	}
 	var x Item
 	term := ""
-	switch vpChoice(8) {
+	switch vpChoice(11) {
+	case 8: // the list-typed members, holding just the one member that has nothing to say
+		x, term = &Actor{ID: "https://h.ex/i", Type: PersonType, Streams: ItemCollection{v}}, "streams"
+	case 9:
+		x, term = &Object{ID: "https://h.ex/i", Type: NoteType, To: ItemCollection{v}, BCC: ItemCollection{v}}, "to"
+	case 10:
+		x, term = &Activity{ID: "https://h.ex/i", Type: LikeType, CC: ItemCollection{v}, Bto: ItemCollection{v}}, "cc"
 	case 0:
 		x, term = &Object{ID: "https://h.ex/i", Type: NoteType, Attachment: v}, "attachment"
 	case 1:
@@ -455,10 +461,29 @@ func vpH_C02_empty_items() {
 	vpAssert("empty-items/valid-json/"+term, doc != nil && doc.kind == 'o')
 	if doc != nil && doc.kind == 'o' {
 		m := doc.get(term)
-		vpAssert("empty-items/member-absent-or-empty/"+term, m == nil || (m.kind == 'a' && len(m.elems) == 0) || (m.kind == 'o' && len(m.names) == 0))
+		vpAssert("empty-items/member-absent-or-empty/"+term, vpJEmptyish(m))
 		vpAssert("empty-items/id-kept/"+term, doc.get("id") != nil)
 	}
 	vpReach("end")
+}
+
+// vpJEmptyish: absent, {} or a list of nothing but such values
+func vpJEmptyish(m *vpJ) bool {
+	if m == nil {
+		return true
+	}
+	if m.kind == 'o' {
+		return len(m.names) == 0
+	}
+	if m.kind != 'a' {
+		return false
+	}
+	for _, e := range m.elems {
+		if !vpJEmptyish(e) {
+			return false
+		}
+	}
+	return true
 }
 
 // strings longer than the symbolic ones with the characters the escaper treats specially (line and
